@@ -2171,10 +2171,13 @@ func (r *Raft) preElectSelf() <-chan *preVoteResult {
 
 // persistVote is used to persist our vote for safety.
 func (r *Raft) persistVote(term uint64, candidate []byte) error {
-	if err := r.stable.SetUint64(keyLastVoteTerm, term); err != nil {
+	// The candidate is written before the term: if only the first write
+	// lands (store error or crash) the record still carries an older term
+	// and cannot be mistaken for a vote cast in the new one.
+	if err := r.stable.Set(keyLastVoteCand, candidate); err != nil {
 		return err
 	}
-	if err := r.stable.Set(keyLastVoteCand, candidate); err != nil {
+	if err := r.stable.SetUint64(keyLastVoteTerm, term); err != nil {
 		return err
 	}
 	return nil
